@@ -105,7 +105,7 @@ PROPS = {
              "(statement-level pre-emption inside LoadTLSConfig / WatchFile), compares the configurations handed out and rotates the CA file afterwards; expectation computed with crypto/x509 from the file content as of the last poll; "
              "non-trivial = at least one handshake was attempted; distinct = event log",
              {"runs": 12000, "budget_s": 35}, {"runs": 300000, "budget_s": 900}, instr=True,
-             must={"all": ["concurrent-first-loads", "long-lived-client-probes", "handshakes-judged:ok", "handshakes-judged:fail", "handshakes-after-a-rotation", "login-handshakes", "watchers-superseded", "same-config-checks", "ca-file:torn", "ca-file:delete"]}),
+             must={"all": ["concurrent-first-loads", "two-interval-runs", "ca-rotations-by-symlink-swap", "long-lived-client-probes", "handshakes-judged:ok", "handshakes-judged:fail", "handshakes-after-a-rotation", "login-handshakes", "watchers-superseded", "same-config-checks", "ca-file:torn", "ca-file:delete"]}),
     "C16": P("plans = 4-12 concurrent tasks per run (first request, whole login, request on a fresh session, request that must refresh, logout, crafted callback, Kubernetes Secret reconcile, CA-file rewrite "
              "under a millisecond-interval watcher, TLS configuration load) on 1-2 filters with static and discovered endpoints, static and fetched keys, memory and Redis, inline and Kubernetes client "
              "secrets, plain and TLS providers; -race build with statement-level yields and simulator mutexes in memory.go, discovery.go, tls.go, file.go; uniform and priority scheduling; "
